@@ -20,6 +20,6 @@ Your task: produce ONE realistic change to the library source (a plausible refac
 
 Deliver, all inside {wt}:
   1. the source change, left UNCOMMITTED in the worktree, and also saved as {wt}/mutation.diff (`git -C {wt} diff -- src > {wt}/mutation.diff`);
-  2. a demonstration {wt}/demo.py: a small standalone program (run as `PYTHONPATH={wt}/src NUMBA_DISABLE_JIT=1 /venv/bin/python {wt}/demo.py`) that checks the property on a concrete input and exits 0 when the property holds (i.e. on the unmodified tree) and exits 1, printing what differs, with your change applied. Verify both: run it with the change, then `git stash`, run it again, `git stash pop`.
+  2. a demonstration {wt}/demo.py: a small standalone program (run as `PYTHONPATH={wt}/src NUMBA_DISABLE_JIT=1 /venv/bin/python {wt}/demo.py`) that checks the property on a concrete input and exits 0 when the property holds (i.e. on the unmodified tree) and exits 1, printing what differs, with your change applied. Verify both: run it with the change, then remove the change with `git -C {wt} checkout -- src` (NEVER use `git stash`: the stash is shared between worktrees of the same repository and other agents work in sibling worktrees), run it again, then re-apply with `git -C {wt} apply {wt}/mutation.diff`. At the end make sure `git -C {wt} diff -- src` equals mutation.diff.
   3. confirm by running the full test suite with the change that the pass/fail set equals the baseline (84 passed).
 Finish with a short report: what the change is (file:line), what exactly is needed for it to manifest, the demo's output with/without the change, and the test-suite summary line. Keep the change small (a few lines).""")
